@@ -457,12 +457,70 @@ func (c *Ctx) AllFuncs(relpkgs ...string) []*Fn {
 			}
 			for _, d := range file.Decls {
 				if fd, ok := d.(*ast.FuncDecl); ok && fd.Body != nil {
+					if c.normalised && c.inlinedAway(fd) {
+						continue
+					}
 					out = append(out, c.fnOfDecl(p, fd))
 				}
 			}
 		}
 	}
 	return out
+}
+
+// inlinedAway: in the normalised program, a function the baseline does not know and that
+// nothing refers to any more (every call was inlined) is not part of the program the rules
+// look at - its body now lives at its former call sites.
+func (c *Ctx) inlinedAway(fd *ast.FuncDecl) bool {
+	if c.deadFns == nil {
+		c.deadFns = map[*ast.FuncDecl]bool{}
+		base := c.baselineFuncs()
+		if base == nil {
+			return false
+		}
+		cand := map[types.Object]*ast.FuncDecl{}
+		for _, p := range c.All {
+			if !strings.HasPrefix(p.PkgPath, M) {
+				continue
+			}
+			for _, f := range p.Syntax {
+				name := c.Fset.File(f.Pos()).Name()
+				if strings.HasSuffix(name, "_test.go") || isGenerated(name) {
+					continue
+				}
+				for _, d := range f.Decls {
+					if g, ok := d.(*ast.FuncDecl); ok && g.Body != nil && !base[funcKeyOf(g, relPkg(p.PkgPath))] && !g.Name.IsExported() {
+						if o := p.TypesInfo.Defs[g.Name]; o != nil {
+							cand[o] = g
+						}
+					}
+				}
+			}
+		}
+		used := map[types.Object]bool{}
+		for _, p := range c.All {
+			if !strings.HasPrefix(p.PkgPath, M) {
+				continue
+			}
+			for id, o := range p.TypesInfo.Uses {
+				if strings.HasSuffix(c.Fset.File(id.Pos()).Name(), "_test.go") {
+					continue
+				}
+				if f, ok := o.(*types.Func); ok {
+					o = f.Origin()
+				}
+				if g := cand[o]; g != nil && !(g.Pos() <= id.Pos() && id.Pos() < g.End()) {
+					used[o] = true
+				}
+			}
+		}
+		for o, g := range cand {
+			if !used[o] {
+				c.deadFns[g] = true
+			}
+		}
+	}
+	return c.deadFns[fd]
 }
 
 func isGenerated(filename string) bool {
